@@ -434,6 +434,12 @@ def main():
     L.append(f"def gcmKwIvBits : Nat := {int(consts.get('gcmKwIvBits', 0))}\n")
     L.append(f"def pbes2SaltLen : Nat := {int(consts.get('pbes2SaltLen', 0))}\n")
     J.update(consts)
+    # the per-claim validators that `validate` finds by name (`getattr(self, "validate_" + key)`): every `validate_*`
+    # attribute of the live registry class
+    from joserfc.jwt import JWTClaimsRegistry
+    cv = sorted(a[len("validate_"):] for a in dir(JWTClaimsRegistry) if a.startswith("validate_"))
+    L.append("def claimValidators : List String := " + llist(map(lstr, cv)) + "\n")
+    J["claimValidators"] = cv
     fp = write_footprint()
     L.append("def sharedWrites : List WriteSite := " + llist(
         f"{{ file := {lstr(a)}, cls := {lstr(b)}, func := {lstr(c)}, kind := {lstr(d)}, target := {lstr(e)} }}" for a, b, c, d, e in fp) + "\n")
